@@ -114,6 +114,10 @@ class BarrelList(list):
             if rel_idx < len_list:
                 break
             rel_idx -= len_list
+        else:
+            # at or past the end: stay relative to the start of the last
+            # sublist, so insert(len(self), x) appends and reads raise
+            rel_idx += len_list
         if rel_idx < 0:
             return None, None
         return list_idx, rel_idx
